@@ -3,3 +3,5 @@ import LicenseExpr.Props.C12
 #print axioms LE.C12_stage_noPairs
 #print axioms LE.C12_ltok_iff
 #print axioms LE.C12_flags
+#print axioms LE.C12_offending
+#print axioms LE.C12_offending_ltok
